@@ -9,11 +9,11 @@ CHECKS = {
    note='Trusted: mc/model.py canonical form (exact object graph incl. identities; renderings and == are functions of it). Pools: complete depth-2 pools on texts of length 2-3 (bounds in evidence).',
    technique='explicit-state exploration of (operation, operands, mutator) triples with snapshot comparison'),
  'C09': dict(engine='explore', design='4/C09',
-   text='(1) Exhaustive edge-argument sweep: ~2700 calls per pool value covering every public method with empty patterns, widths 0/10^4/wrong type, fills of length 0/1/2, bounds +-(L+1) and +-10^9, counts up to 10^9, None, wrong-kind types, malformed settings (incl. a list containing itself) and malformed specs, each under a per-call watchdog with a deterministic 10^6-line budget; only TypeError/ValueError (IndexError for integer index, the error str raises) allowed and the receiver must be canonically unchanged after a raise. (2) Explicit-state BFS over the full mutating alphabet (~110 ops per state incl. out-of-range bounds, zero-width pads, += itself, replace to empty) to depth 2/3 with a deep probe (WITH_ASSERTIONS walk, 8 renderings, every slice/index, find_settings, join, conversions, re-parse, simplify, == copy, closedness) in every new state; bad post-states quarantined.',
+   text='(1) Exhaustive edge-argument sweep: ~2700 calls per pool value covering every public method with empty patterns, widths 0/10^4/wrong type, fills of length 0/1/2, bounds +-(L+1) and +-10^9, counts up to 10^9, None, wrong-kind types, malformed settings (incl. a list containing itself) and malformed specs, each under a per-call watchdog with a deterministic 10^6-line budget; only TypeError/ValueError (IndexError for integer index, the error str raises) allowed and the receiver must be canonically unchanged after a raise. (2) Explicit-state BFS over the full mutating alphabet (~110 ops per state incl. out-of-range bounds, zero-width pads, += itself, replace to empty) to depth 2/3 with a deep probe (WITH_ASSERTIONS walk, 8 renderings, every slice/index, find_settings, join, conversions, re-parse, simplify, == copy, closedness) in every new state; bad post-states quarantined. The BFS additionally checks, for every transition, read transparency (the same operation after a full round of queries and renderings must give the same observable value) and that an iterator taken before the operation still ends cleanly afterwards; seeds include restart points, duplicated setting objects, three stacked settings and a base text containing an SGR sequence; the sweep has overflow widths (10**20) and wrong-typed counts.',
    note='Reading of "terminates": within 10^6 interpreted lines. Floats for indices and invalid regular expressions are outside "documented types".',
    technique='explicit-state BFS over mutating operation histories + exhaustive edge-argument enumeration under a step-bounded watchdog'),
  'C11': dict(engine='explore', design='4/C11',
-   text='Exhaustive over every text up to length 4/5 over {a,b,-} (and a whitespace alphabet) x position-identifying layouts (rainbow, rainbow under every span, abutting equal spans at every cut) x split/rsplit (every separator up to length 2 x maxsplit; None), splitlines, partition/rpartition, strip family, removeprefix/suffix, case methods, assign_str (L-2..L+2), replace (7 replacements incl. styled AnsiString/AnsiStr objects reused across matches x counts), expandtabs, on AnsiString and AnsiStr: each piece must report cells[o:o+len] at the offset found by a reference scan that is itself validated against Python str, and is probed for closedness.',
+   text='Exhaustive over every text up to length 4/5 over {a,b,-} (and a whitespace alphabet) x position-identifying layouts (rainbow, rainbow under every span, abutting equal spans at every cut) x split/rsplit (every separator up to length 2 x maxsplit; None), splitlines, partition/rpartition, strip family, removeprefix/suffix, case methods, assign_str (L-2..L+2), replace (7 replacements incl. styled AnsiString/AnsiStr objects reused across matches x counts), expandtabs, on AnsiString and AnsiStr: each piece must report cells[o:o+len] at the offset found by a reference scan that is itself validated against Python str, and is probed for closedness. Also: layouts with verbatim multi-group and non-canonically spelled settings and three stacked settings, the receiver itself as replacement value, the in-place form of replace.',
    note='Not claimed: case conversions that change the length; replace with an empty search string (style of an empty match undefined).',
    technique='exhaustive enumeration of (text, layout, method, arguments) against a reference scan + cell model'),
  'C12': dict(engine='explore', design='4/C12',
@@ -25,23 +25,23 @@ CHECKS = {
    note='encode is excluded (outside all properties). __eq__ is not compared (documented to differ).',
    technique='explicit-state twin (lock-step) exploration of both classes over operation sequences up to depth 2'),
  'C16': dict(engine='explore', design='4/C16',
-   text='Exhaustive over 6 texts x layouts (plain, rainbow, every one-span, rainbow+span; two-span in thorough) x 8 plain patterns (with regex metacharacters, empty) and 8 regexes (empty/adjacent/lookahead/optional matches) x match_case x 5 counts x settings menus (incl. none/None/absent): the method result must equal - by canonical state, cells, == and all renderings - the fold of apply/remove_formatting over islice(re.finditer) on a copy; AnsiStr twin.',
+   text='Exhaustive over 6 texts x layouts (plain, rainbow, every one-span, rainbow+span; two-span in thorough) x 8 plain patterns (with regex metacharacters, empty) and 8 regexes (empty/adjacent/lookahead/optional matches) x match_case x 5 counts x settings menus (incl. none/None/absent): the method result must equal - by canonical state, cells, == and all renderings - the fold of apply/remove_formatting over islice(re.finditer) on a copy; AnsiStr twin. Also a Unicode family (dotted/dotless i, long s, sigma forms, micro sign; oracle still re.IGNORECASE), three bare integer format arguments forming one extended-colour setting, three stacked settings.',
    note='C06/C07 establish apply/remove themselves.',
    technique='exhaustive enumeration of (value, pattern, flags, count, settings) against a reference fold through the public API'),
  'C17': dict(engine='explore', design='4/C17',
-   text='Explicit-state BFS pools (L<=5) x ansi_settings_at/settings_at for every index in [-L-2..L+2] x find_settings for 9 selections x every (start, end) in ([-L-1..L+1]+None)^2 x both directions against a per-character table (first position, run property, first lacking position, inverted/empty cases); AnsiStr twin.',
+   text='Explicit-state BFS pools (L<=5) x ansi_settings_at/settings_at for every index in [-L-2..L+2] x find_settings for 9 selections x every (start, end) in ([-L-1..L+1]+None)^2 x both directions against a per-character table (first position, run property, first lacking position, inverted/empty cases); AnsiStr twin. Also separator-only selections, the exhaustive triple-of-ranges families, and the AnsiStr twin over the whole bounds grid for two selections in both directions.',
    note='A match only at the closing bound is accepted either way (statement silent).',
    technique='explicit-state BFS over operation histories with exhaustive query probes in every state'),
  'C01': dict(engine='explore', design='4/C01',
-   text='(A) Explicit-state BFS pools of real values (apply/remove/slice/concat/pad/assign histories, depth 2-3, set/clear/extended/reset roles) and (B) the optimiser bridge table enumerated directly (all 91 unordered pairs of effect groups x {absent, value1, value2, clear code}^4 on adjacent characters x ballasts x one-span/abutting, plus every single group): every value is rendered under all 8 optimize/reset_start/reset_end combinations (+str/format/f-string, AnsiStr twin) and every rendering is interpreted by an independent SGR terminal from the default and from a dirty prior state and compared with the reduction of the settings the object reports per character.',
+   text='(A) Explicit-state BFS pools of real values (apply/remove/slice/concat/pad/assign histories, depth 2-3, set/clear/extended/reset roles) and (B) the optimiser bridge table enumerated directly (all 91 unordered pairs of effect groups x {absent, value1, value2, clear code}^4 on adjacent characters x ballasts x one-span/abutting, plus every single group): every value is rendered under all 8 optimize/reset_start/reset_end combinations (+str/format/f-string, AnsiStr twin) and every rendering is interpreted by an independent SGR terminal from the default and from a dirty prior state and compared with the reduction of the settings the object reports per character. Since waves 7-10 also: a `similar` task (every ordered pair of near-identical values of one effect group - plain and bright colours, 256-colour indices and rgb components over {0,1,10,100,2,20,200,25,250,255}, fonts, clear codes - on adjacent characters), exhaustive layout families as start states (every triple of ranges with three settings in the patterns distinct / X,Y,X / W,R,W; every character with its own fg+bg in either order), pools with verbatim multi-group settings, the less common effect groups, reset and zero-parameter colours.',
    note='Trusted: mc/refterm.py (conforming terminal = the 15-group reading the properties spell out). Verbatim/ill-formed settings are C15 business. Bounds in evidence.',
    technique='explicit-state BFS + exhaustive bridge-table enumeration, renderings interpreted by a reference terminal'),
  'C03': dict(engine='explore', design='4/C03',
-   text='Explicit-state BFS pools (well-formed roles plus verbatim multi-group, incomplete, invalid and unknown-code settings): in every state the render/re-parse round trip (AnsiString and AnsiStr) and simplify() on a copy are checked - text, per-character effective style (reference terminal reading of the valid codes), parsable afterwards, no invalid setting left, idempotence, fixed point of str(AnsiString(str(s))), AnsiStr twin, health of the simplified value.',
+   text='Explicit-state BFS pools (well-formed roles plus verbatim multi-group, incomplete, invalid and unknown-code settings): in every state the render/re-parse round trip (AnsiString and AnsiStr) and simplify() on a copy are checked - text, per-character effective style (reference terminal reading of the valid codes), parsable afterwards, no invalid setting left, idempotence, fixed point of str(AnsiString(str(s))), AnsiStr twin, health of the simplified value. Start states also include the exhaustive layout families (triples of ranges; per-character fg+bg in both orders, i.e. four and more change points changing the same two effects), the less common effect groups and zero-parameter colours next to a verbatim setting.',
    note='Trusted: mc/refterm.py, mc/model.py. States with incomplete verbatim groups are excluded from the style clause only.',
    technique='explicit-state BFS over operation histories with a state invariant checked in every state'),
  'C10': dict(engine='langenum', design='4/C10',
-   text='Bounded exhaustive differential against Python str: every text up to length 4-5 over per-family alphabets (search/split, whitespace, case/predicates incl. length-changing Unicode, padding) wrapped as AnsiString/AnsiStr, formatted and plain, x every argument tuple (all patterns up to length 2 incl. empty, all start/end in [-L-1..L+1]+None, counts, fills, widths); results, result types and exception types compared with the same str call, documented deviations encoded in the oracle; per-call watchdog with a deterministic step budget for termination.',
+   text='Bounded exhaustive differential against Python str: every text up to length 4-5 over per-family alphabets (search/split, whitespace, case/predicates incl. length-changing Unicode, padding) wrapped as AnsiString/AnsiStr, formatted and plain, x every argument tuple (all patterns up to length 2 incl. empty, all start/end in [-L-1..L+1]+None, counts, fills, widths); results, result types and exception types compared with the same str call, documented deviations encoded in the oracle; per-call watchdog with a deterministic step budget for termination. Also a line-boundary family (all ten str.splitlines boundaries and their nearest non-boundary neighbours, every text up to length 3/4) and `in` with styled AnsiString / AnsiStr needles.',
    note='Oracle = str of /venv/bin/python 3.12. Unicode beyond the 12 representatives is not claimed.',
    technique='exhaustive enumeration of (text, method, arguments) against str as reference model'),
  'C14': dict(engine='langenum', design='4/C14',
@@ -49,27 +49,27 @@ CHECKS = {
    note='Canonical codes for named members come from the member definition; for rgb/color256 from the statement. color256 out of range is not claimed (statement is silent).',
    technique='exhaustive enumeration of input spellings per equivalence class against a reference canonicaliser'),
  'C15': dict(engine='langenum', design='4/C15',
-   text='Bounded exhaustive: every setting text up to length 4 (quick) / 5 (thorough) over 17 characters (digits, ;, space, 0x3F, m, 0x40, 0x7E, 0x7F, _, +, -, a full-width digit) and every ;-list of <=4-6 tokens over 18 tokens (incl. +1, 1_0, spaced and zero-padded numbers), flags queried in both orders twice (they are cached), against a reference grammar; every AnsiFormat member/name/known code/in-range helper result; BFS pools with 9 verbatim settings: is_formatting_valid/parsable vs the conjunction over settings in use, SGR-removal and setting-intact clauses under all 8 rendering flag combinations.',
+   text='Bounded exhaustive: every setting text up to length 4 (quick) / 5 (thorough) over 17 characters (digits, ;, space, 0x3F, m, 0x40, 0x7E, 0x7F, _, +, -, a full-width digit) and every ;-list of <=4-6 tokens over 18 tokens (incl. +1, 1_0, spaced and zero-padded numbers), flags queried in both orders twice (they are cached), against a reference grammar; every AnsiFormat member/name/known code/in-range helper result; BFS pools with 9 verbatim settings: is_formatting_valid/parsable vs the conjunction over settings in use, SGR-removal and setting-intact clauses under all 8 rendering flag combinations. Pool clause `setting-rewritten`: every setting in use must equal, character for character, one of the texts the history supplied (non-canonical spellings, AnsiSetting objects, steps that copy setting objects).',
    note='Reading: tokens with spaces/leading zeros judged by integer value. The setting-intact clause is applied to unoptimised renderings (the optimiser may legitimately drop shadowed parsable settings).',
    technique='exhaustive enumeration of setting texts against a reference grammar + explicit-state BFS for the rendering clause'),
  'C02': dict(engine='langenum', design='4/C02',
-   text='Bounded exhaustive enumeration: every SGR code list up to length 5/6 over an 11-code alphabet (set, clear, reset, unknown, extended-colour ingredients) after 5 prior-state contexts, every token sequence up to length 4 (quick) / 6 (thorough) over 15 tokens (text, 6 SGR sequences, non-SGR control sequences incl. the boundary final bytes @ and ~, unterminated sequences, lone ESC and [), and the same token language behind 300 characters of plain text (change points beyond offset 256), constructed through the real AnsiString/AnsiStr and compared character by character with an independent SGR terminal run over the raw input.',
+   text='Bounded exhaustive enumeration: every SGR code list up to length 5/6 over an 11-code alphabet (set, clear, reset, unknown, extended-colour ingredients) after 5 prior-state contexts, every token sequence up to length 4 (quick) / 6 (thorough) over 15 tokens (text, 6 SGR sequences, non-SGR control sequences incl. the boundary final bytes @ and ~, unterminated sequences, lone ESC and [), and the same token language behind 300 characters of plain text (change points beyond offset 256), constructed through the real AnsiString/AnsiStr and compared character by character with an independent SGR terminal run over the raw input. Also every ordered pair of the 75 known single codes (one sequence, two sequences, on top of a colour) and every token string parsed a second time into an object that has been used before (set_ansi_str must leave nothing of the old content).',
    note='Trusted: mc/refterm.py. The ambiguous reading 38;x (x not 2/5) is judged against the admissible set (drop 38 only | drop 38 and x); components>255 / empty / non-decimal parameters are checked for text only. Not claimed beyond the stated lengths/alphabets.',
    technique='explicit-state exhaustive enumeration of the input prefix tree against a reference SGR terminal'),
  'C04': dict(engine='explore', design='4/C04',
-   text='Explicit-state BFS over real AnsiString objects (histories of apply/remove over every range with conflicting, equal and multi-parameter settings, plus concat/pad/slice steps; dedup by exact canonical object graph) to depth 2 (quick) / 3 (thorough) on texts of length 1-6; in every state every (start, stop) in ([-L-2..L+2]+None)^2 through v[i:j], clip, AnsiStr slicing, every integer index, step-1 slice objects, in-place clip and iteration is compared with Python slicing of the per-character model, and every result is probed for closedness by appending to it.',
+   text='Explicit-state BFS over real AnsiString objects (histories of apply/remove over every range with conflicting, equal and multi-parameter settings, plus concat/pad/slice steps; dedup by exact canonical object graph) to depth 2 (quick) / 3 (thorough) on texts of length 1-6; in every state every (start, stop) in ([-L-2..L+2]+None)^2 through v[i:j], clip, AnsiStr slicing, every integer index, step-1 slice objects, in-place clip and iteration is compared with Python slicing of the per-character model, and every result is probed for closedness by appending to it. Also AnsiStr integer indices, in-place clip and AnsiStr.clip over the whole bounds grid, the exhaustive triple-of-ranges families, and values whose base text itself contains a complete SGR sequence (layouts esc / esc2, after defect 9a8a9de).',
    note='Trusted: mc/model.py abstraction (public ansi_settings_at) and equivalence (multiset + per-effect-group order). Bounds: <=3 live spans, L<=6.',
    technique='explicit-state BFS over operation histories of the real objects with lock-step reference-model comparison'),
  'C05': dict(engine='explore', design='4/C05',
-   text='Explicit-state exploration of binary transitions: all ordered pairs (a, b) from two BFS pools of real AnsiString values (depth-2/3 apply/remove/structural histories; b on a different text, plain/rainbow/empty seeds) through a+b, a+=b, join(a,b), join(a,b,c), AnsiStr twins, str operands, every value with itself (same object), and every split point v[:k]+v[k:] of every pool value; each result compared with cells_a+cells_b taken before the call (multiset and per-effect-group precedence), probed for closedness, split results also compared on the reference terminal.',
+   text='Explicit-state exploration of binary transitions: all ordered pairs (a, b) from two BFS pools of real AnsiString values (depth-2/3 apply/remove/structural histories; b on a different text, plain/rainbow/empty seeds) through a+b, a+=b, join(a,b), join(a,b,c), AnsiStr twins, str operands, every value with itself (same object), and every split point v[:k]+v[k:] of every pool value; each result compared with cells_a+cells_b taken before the call (multiset and per-effect-group precedence), probed for closedness, split results also compared on the reference terminal. Also: every triple-of-ranges value (1000 on four characters) split at every point, plain-str operands that carry SGR sequences (style left open, sequence without text) in all positions of + and join, non-canonical and multi-group setting texts.',
    note='Trusted: mc/model.py, mc/refterm.py. Operands with <=3 live spans on texts of length <=3; pairs of histories up to depth 2x2 (quick) / 3x2 (thorough).',
    technique='explicit-state exploration of operand pairs (BFS pools) with lock-step reference-model comparison'),
  'C06': dict(engine='explore', design='4/C06',
-   text='Explicit-state BFS pools of real values (depth 2/3, conflicting/equal/clearing settings, rainbow seeds) x every (start, end) in ([-L-2..L+3]+None)^2 x topmost x 7-11 settings choices: the post-state is compared with the pre-state by the relation the statement gives (text, outside cells, inside multiset, old precedence, bottom/top precedence per effect group, no-op cases by canonical equality) and probed for closedness and self-consistency.',
+   text='Explicit-state BFS pools of real values (depth 2/3, conflicting/equal/clearing settings, rainbow seeds) x every (start, end) in ([-L-2..L+3]+None)^2 x topmost x 7-11 settings choices: the post-state is compared with the pre-state by the relation the statement gives (text, outside cells, inside multiset, old precedence, bottom/top precedence per effect group, no-op cases by canonical equality) and probed for closedness and self-consistency. Also: menus with two conflicting new settings, a reset, a verbatim two-group setting and a separator-only argument; start states with restart points, three stacked settings (exhaustive triples of ranges), the less common groups; the AnsiStr twin over the whole raw bounds grid.',
    note='Trusted: mc/model.py, mc/refterm.py (effect groups). Raw out-of-range bounds are checked with every settings choice in thorough, one in quick. L<=4, <=3 live spans.',
    technique='explicit-state BFS over operation histories with a relational (pre/post) reference oracle'),
  'C07': dict(engine='explore', design='4/C07',
-   text='Explicit-state BFS pools (as C06, L<=5) x every (start, end) x every selection (None, present/absent/hidden roles, pairs, empty): post-state compared with the deterministic cell model (inside: minus matching codes, order kept; outside: unchanged under multiset + per-group precedence), empty ranges by canonical equality, clear_formatting, AnsiStr twins, closedness/self-check of every post-state.',
+   text='Explicit-state BFS pools (as C06, L<=5) x every (start, end) x every selection (None, present/absent/hidden roles, pairs, empty): post-state compared with the deterministic cell model (inside: minus matching codes, order kept; outside: unchanged under multiset + per-group precedence), empty ranges by canonical equality, clear_formatting, AnsiStr twins, closedness/self-check of every post-state. Also: separator-only selections (must remove nothing), start states with restart points, exhaustive triples of ranges, reset / two-group settings; the AnsiStr twin over the whole raw bounds grid.',
    note='Trusted: mc/model.py. Bounds as in evidence.',
    technique='explicit-state BFS over operation histories with lock-step reference-model comparison'),
  'C18': dict(engine='langenum', design='4/C18',
@@ -77,7 +77,7 @@ CHECKS = {
    note='Trusted: mc/refterm.py. Ambiguous lists excluded from the state clause (counted).',
    technique='explicit-state exhaustive enumeration of code lists against a reference SGR reducer'),
  'C19': dict(engine='langenum', design='4/C19',
-   text='Bounded exhaustive enumeration (prefix tree) of every string up to length 6 (quick) / 7 (thorough) over a 9-symbol alphabet (ESC, [, digit, ;, ?, m, another final byte, space, non-ASCII), one symbol shorter over that alphabet plus the boundary bytes @ ~ DEL, and every string up to length 6/7 over {ESC, [, m, digit} behind 300-1000 characters of text (removal points beyond offset 256), x the 6 constructor flag combinations, each parsed by the real ParsedAnsiControlSequenceString and compared with an independent regex tokenizer and a re-inserter; every helper function x 8 boundary integers.',
+   text='Bounded exhaustive enumeration (prefix tree) of every string up to length 6 (quick) / 7 (thorough) over a 9-symbol alphabet (ESC, [, digit, ;, ?, m, another final byte, space, non-ASCII), one symbol shorter over that alphabet plus the boundary bytes @ ~ DEL, and every string up to length 6/7 over {ESC, [, m, digit} behind 300-1000 characters of text (removal points beyond offset 256), x the 6 constructor flag combinations, each parsed by the real ParsedAnsiControlSequenceString and compared with an independent regex tokenizer and a re-inserter; every helper function x 8 boundary integers. Also token-level strings (8 tokens - text pieces, SGR and non-SGR sequences, unterminated pieces - to length 6/7 and three tokens to length 9/11), i.e. many removal points per string.',
    note='Trusted: mc/reftok.py (15 lines); inputs whose parameter bytes lie outside 0x30-0x3F are judged on losslessness only. Not claimed beyond length 7 / other alphabets.',
    technique='explicit-state exhaustive enumeration of the input prefix tree against a reference tokenizer'),
 }
